@@ -86,4 +86,5 @@ def main() -> None:
     net.finish("bounded", "RDF 1.1 streams from pyjelly and from the reference encoder through the six parse entry points; corresponding TRIPLES/QUADS inputs through both flat serialisers with default/small/tiny presets (also 40 namespaces)",
                "each case = a byte string or a serialiser input")
 if __name__ == "__main__":
-    main()
+    from common import run_main
+    run_main(main, "C15")
